@@ -44,8 +44,13 @@ func zzErrMember() Error {
 		return Error{}
 	}
 	// the code is symbolic (0 = no error member)
-	return Error{Code: zzvrf.Int("error.code"), Message: "m"}
+	e := Error{Code: zzvrf.Int("error.code"), Message: "m"}
+	zzErrSeen = zzvrf.Or(zzErrSeen, e.Code != 0)
+	return e
 }
+
+// zzErrSeen: some answer of this run carried an error member (code != 0).
+var zzErrSeen bool
 
 // zzDeviate: a structural corruption (null result, shorter/longer batch,
 // other item count) is allowed while the budget lasts.
